@@ -2146,7 +2146,7 @@ func lemmaForwardSession(raw *rawEnvelope) (e *Session, e3 *Session, accepted bo
 //@   props C09 C10
 //@   requires istype(a, []SessionEncryption) || istype(a, []SessionCompression)
 //@   modifies nothing
-//@   loop 0 invariant 0 <= i && reflBase(v) == a && reflIdx(v) < 0
+//@   loop 0 invariant 0 <= i
 //@   loop 0 invariant istype(a, []SessionEncryption) ==> i <= len(a.([]SessionEncryption)) && (istype(e, SessionEncryption) ==> !inset(elems(prefix(a.([]SessionEncryption), i)), e.(SessionEncryption)))
 //@   loop 0 invariant istype(a, []SessionCompression) ==> i <= len(a.([]SessionCompression)) && (istype(e, SessionCompression) ==> !inset(elems(prefix(a.([]SessionCompression), i)), e.(SessionCompression)))
 //@   ensures [C09,C10] @membership istype(a, []SessionEncryption) && istype(e, SessionEncryption) ==> result == inset(elems(a.([]SessionEncryption)), e.(SessionEncryption))
@@ -2156,7 +2156,7 @@ func lemmaForwardSession(raw *rawEnvelope) (e *Session, e3 *Session, accepted bo
 //@   props C09 C10
 //@   requires encPair(a, b) || compPair(a, b)
 //@   modifies nothing
-//@   loop 0 invariant 0 <= i && reflBase(av) == a && reflIdx(av) < 0 && fresh(set)
+//@   loop 0 invariant 0 <= i && fresh(set)
 //@   loop 0 invariant encPair(a, b) ==> i <= len(a.([]SessionEncryption)) && alltags(set, SessionEncryption) && subset(elems(set), elems(a.([]SessionEncryption))) && subset(elems(set), elems(b.([]SessionEncryption))) && ((len(set) == 0) == emptyinter(elems(prefix(a.([]SessionEncryption), i)), elems(b.([]SessionEncryption))))
 //@   loop 0 invariant compPair(a, b) ==> i <= len(a.([]SessionCompression)) && alltags(set, SessionCompression) && subset(elems(set), elems(a.([]SessionCompression))) && subset(elems(set), elems(b.([]SessionCompression))) && ((len(set) == 0) == emptyinter(elems(prefix(a.([]SessionCompression), i)), elems(b.([]SessionCompression))))
 //@   ensures fresh(result)
